@@ -647,12 +647,26 @@ const struct attr_ops page_size_ops = {
 };
 
 static kdump_status
+page_shift_pre_hook(kdump_ctx_t *ctx, struct attr_data *attr,
+		    kdump_attr_value_t *newval)
+{
+	/* The page size must fit into a size_t. */
+	if (newval->number >= CHAR_BIT * sizeof(size_t))
+		return set_error(ctx, KDUMP_ERR_CORRUPT,
+				 "Invalid page shift: %" KDUMP_PRIuNUM,
+				 newval->number);
+
+	return KDUMP_OK;
+}
+
+static kdump_status
 page_shift_post_hook(kdump_ctx_t *ctx, struct attr_data *attr)
 {
 	return set_page_size(ctx, (size_t)1 << attr_value(attr)->number);
 }
 
 const struct attr_ops page_shift_ops = {
+	.pre_set = page_shift_pre_hook,
 	.post_set = page_shift_post_hook,
 };
 
